@@ -8,3 +8,14 @@ spec fn stack_ok(t: int, st: Seq<SearchPath>) -> bool {
 spec fn lands_on_leaf(t: int, st: Seq<SearchPath>) -> bool {
     st.len() >= 1 && node_leaf(t, st.last().id)
 }
+
+// `to` is `from` moved one slot to the right at level j (the deepest level of `from` that has a slot to its right),
+// followed by a descent along first children
+spec fn moved_one_slot(t: int, from: Seq<SearchPath>, to: Seq<SearchPath>, j: int) -> bool {
+    &&& 0 <= j < from.len() && j < to.len()
+    &&& from.subrange(0, j) =~= to.subrange(0, j)
+    &&& to[j].id == from[j].id && to[j].index == from[j].index + 1
+    &&& forall|k: int| j < k < from.len() ==> (#[trigger] from[k]).index + 1 >= node_len(t, from[k].id)
+    &&& forall|k: int| j < k < to.len() ==> (#[trigger] to[k]).index == 0
+            && to[k].id == PageNodeID::Page(node_child(t, to[k - 1].id, to[k - 1].index as int))
+}
